@@ -94,6 +94,9 @@ impl<'input, E> Iterator for Matcher<'input, '_, E> {
         loop {
             let text = self.text;
             let start_offset = self.consumed;
+            // verification hook, see the end of this file
+            #[cfg(all(lalrpop_verif, feature = "std"))]
+            verif_hook::iteration(start_offset);
             if text.is_empty() {
                 self.consumed = start_offset;
                 return None;
@@ -157,3 +160,42 @@ impl<'input, E> Iterator for Matcher<'input, '_, E> {
         }
     }
 }
+
+/// Verification hook (cfg `lalrpop_verif`). The state of a `Matcher` is
+/// (`text`, `consumed`) only, so an iteration of the loop in `next` that starts
+/// at the offset at which an earlier iteration of the same call started would
+/// repeat forever. A driver that calls `verif_reset` before every call of
+/// `next` on its thread gets a panic instead of a call that never returns;
+/// without such a driver the hook does nothing.
+#[cfg(all(lalrpop_verif, feature = "std"))]
+mod verif_hook {
+    use core::cell::Cell;
+    std::thread_local! {
+        // (armed by `reset`, offset of the previous iteration since then)
+        static STATE: Cell<(bool, Option<usize>)> = const { Cell::new((false, None)) };
+    }
+
+    pub(super) fn iteration(offset: usize) {
+        STATE.with(|state| {
+            let (armed, last) = state.get();
+            if !armed {
+                return;
+            }
+            if last == Some(offset) {
+                state.set((false, None));
+                panic!(
+                    "lalrpop_verif: lexer loop made no progress at offset {}",
+                    offset
+                );
+            }
+            state.set((true, Some(offset)));
+        });
+    }
+
+    pub fn reset() {
+        STATE.with(|state| state.set((true, None)));
+    }
+}
+
+#[cfg(all(lalrpop_verif, feature = "std"))]
+pub use self::verif_hook::reset as verif_reset;
